@@ -601,10 +601,13 @@ def _zero_padding(w: World, rep: Report):
     for op, helper in helper_of.items():
         fi = w.handler_for(op)
         pads = []
-        for lp in [x for x in ast.walk(fi.node) if isinstance(x, ast.While)]:
-            for a in [y for y in ast.walk(lp) if isinstance(y, ast.AugAssign) and isinstance(y.op, ast.Add)]:
-                if isinstance(a.value, ast.Constant) and isinstance(a.value.value, bytes):
-                    pads.append((a.value.value, a.lineno))
+        # `x += b'\\x00'` in a loop, or `x += b'\\x00' * n` under a test of the length difference
+        for a in [y for y in ast.walk(fi.node) if isinstance(y, ast.AugAssign) and isinstance(y.op, ast.Add)]:
+            v = a.value
+            if isinstance(v, ast.BinOp) and isinstance(v.op, ast.Mult):
+                v = v.left if isinstance(v.left, ast.Constant) else v.right
+            if isinstance(v, ast.Constant) and isinstance(v.value, bytes) and len(v.value) == 1:
+                pads.append((v.value, a.lineno))
         for c in [x for x in ast.walk(fi.node) if isinstance(x, ast.Call) and isinstance(x.func, ast.Attribute) and
                   x.func.attr in ('ljust', 'rjust') and len(x.args) == 2 and isinstance(x.args[1], ast.Constant)]:
             pads.append((c.args[1].value if c.func.attr == 'ljust' else b'<left>', c.lineno))
